@@ -15,7 +15,9 @@ import (
 	"math/rand"
 	"os"
 	"os/exec"
+	"regexp"
 	"runtime"
+	"runtime/debug"
 	"strings"
 	"time"
 
@@ -97,6 +99,9 @@ func textFault(base, kind string, at int, val string) string {
 		}
 		return base
 	}
+	if kind == "double" {
+		return doubleFault(base, at, val)
+	}
 	pos := len(base) * at / 10
 	ins := map[string]string{"bignum": "99999999999999999999999999999", "deep": strings.Repeat("(", 3000), "quote": `"`, "nul": "\x00", "brace": "{",
 		"longname": strings.Repeat("abcdefghij", 10000), "unicode": "é☃\U0001F600\xff\xfe"}[val]
@@ -120,6 +125,42 @@ func textFault(base, kind string, at int, val string) string {
 		return base[:pos] + strings.Repeat(ins+base[pos:min(pos+40, len(base))], 300) + base[pos:]
 	}
 	return base
+}
+
+// doubleFault: an early fault that stops the loader's work on one rule, then boundary material in a later rule.
+func doubleFault(base string, at int, val string) string {
+	isJSON := strings.HasPrefix(strings.TrimSpace(base), "[") || strings.HasPrefix(strings.TrimSpace(base), "{")
+	wide := []string{"2147483648", "3000000000", "99999999999999999999", "-2147483649", "0x80000000", "9223372036854775807", "4294967296",
+		"-9223372036854775808", "1e400", "2147483647"}[at%10]
+	if isJSON {
+		early := map[string]string{
+			"widesal":  `{"name":"Pre1","desc":"p","salience":2147483648,"when":{"eq":[1,1]},"then":[{"call":["Retract",{"const":"Pre1"}]}]}`,
+			"badesc":   `{"name":"Pre1","desc":"p","salience":1,"when":{"eq":[{"obj":"\"\\q\""},1]},"then":[{"call":["Retract",{"const":"Pre1"}]}]}`,
+			"dupname":  `{"name":"Pre1","desc":"p","salience":1,"when":{"eq":[1,1]},"then":[{"call":["Complete"]}]},{"name":"Pre1","desc":"p","salience":2,"when":{"eq":[1,1]},"then":[{"call":["Complete"]}]}`,
+			"badtoken": `{"name":"Pre1","desc":"p","salience":1,"when":{"eq":[{"obj":"F.#"},1]},"then":[{"call":["Complete"]}]}`,
+			"unclosed": `{"name":"Pre1","desc":"p","salience":1,"when":{"eq":[{"obj":"(F.X"},1]},"then":[{"call":["Complete"]}]}`,
+		}[val]
+		w := wide
+		if strings.HasPrefix(w, "0x") || w == "1e400" {
+			w = `{"obj":"` + w + `"}`
+		}
+		late := `{"name":"Post1","desc":"q","salience":5,"when":{"gt":["F.X",` + w + `]},"then":[{"set":["F.X",` + w + `]},{"call":["Retract",{"const":"Post1"}]}]}`
+		mid := strings.TrimSpace(base)
+		mid = strings.TrimSuffix(strings.TrimPrefix(mid, "["), "]")
+		return "[" + early + "," + mid + "," + late + "]"
+	}
+	early := map[string]string{
+		"widesal":  `rule Pre1 "p" salience 2147483648 { when true then Retract("Pre1"); }`,
+		"badesc":   `rule Pre1 "\q" salience 2 { when F.S == "\q" then Retract("Pre1"); }`,
+		"dupname":  `rule Pre1 "p" { when true then Retract("Pre1"); } rule Pre1 "p" salience 3 { when true then Retract("Pre1"); }`,
+		"badtoken": `rule Pre1 "p" salience 4 { when F.X # 1 then Retract("Pre1"); }`,
+		"unclosed": `rule Pre1 "p" salience 4 { when (F.X == 1 then Retract("Pre1"); }`,
+	}[val]
+	late := `rule Post1 "q" salience 5 { when F.X > ` + wide + ` then F.X = ` + wide + `; Retract("Post1"); }`
+	if at%2 == 1 {
+		late = `rule Post0 "q" salience 6 { when true then Retract("Post0"); } ` + late
+	}
+	return early + "\n" + base + "\n" + late
 }
 
 // recReader records where the loader reads 8 bytes at once: exactly the integer fields (lengths, counts, numbers).
@@ -304,9 +345,14 @@ func cmdLoadChild(args []string) {
 	fs.Parse(args)
 	cs := readFaultCases(*in)
 	b := loadBases(*bases)
+	debug.SetMaxStack(256 << 20) // (default 1 GB: an unbounded recursion ends in the same fatal error, only later)
 	for i := *from; i < *to && i < len(cs); i++ {
 		if cs[i].Fault.Kind == "sweep8" {
 			sweepAllFields(b, cs[i], i)
+			continue
+		}
+		if cs[i].Fault.Kind == "idswap" && cs[i].Input == nil {
+			sweepIDs(b, cs[i], i)
 			continue
 		}
 		input := applyFault(b, cs[i], i)
@@ -376,6 +422,97 @@ func sweepAllFields(b *baseInputs, c *faultCase, i int) {
 	fmt.Printf("RESULT %s\n", mustJSON(J{"i": i, "outcome": worstOutcome, "len": len(base), "ms": worstMs, "alloc": worstAlloc, "fields": len(fields), "at": worstAt}))
 }
 
+var reNodeID = regexp.MustCompile(`[0-9a-f]{8}-[0-9a-f]{4}-[0-9a-f]{4}-[0-9a-f]{4}-[0-9a-f]{12}`)
+
+// idOccurrences lists the offsets of the node ids of a stream (36-character strings behind a length field of 36).
+func idOccurrences(d []byte) []int {
+	var out []int
+	for _, m := range reNodeID.FindAllIndex(d, -1) {
+		if m[0] >= 8 && binary.LittleEndian.Uint64(d[m[0]-8:]) == 36 {
+			out = append(out, m[0])
+		}
+	}
+	return out
+}
+
+// idSwaps enumerates the (offset, replacement) pairs of an idswap fault: every id occurrence is replaced by the
+// distinct ids that precede it most closely (itself when it is a definition followed by a reference, its parent,
+// earlier siblings) or by ids picked at random from the whole stream.
+func idSwaps(base []byte, val string) (offs []int, repl []string) {
+	occ := idOccurrences(base)
+	r := rand.New(rand.NewSource(int64(len(base))))
+	for k, off := range occ {
+		own := string(base[off : off+36])
+		seen := map[string]bool{own: true}
+		var cands []string
+		if val == "near" {
+			for j := k - 1; j >= 0 && len(cands) < 6; j-- {
+				id := string(base[occ[j] : occ[j]+36])
+				if !seen[id] {
+					seen[id] = true
+					cands = append(cands, id)
+				}
+			}
+			for j := k + 1; j < len(occ) && len(cands) < 8; j++ {
+				id := string(base[occ[j] : occ[j]+36])
+				if !seen[id] {
+					seen[id] = true
+					cands = append(cands, id)
+				}
+			}
+		} else {
+			for t := 0; t < 3; t++ {
+				id := string(base[occ[r.Intn(len(occ))]:][:36])
+				if !seen[id] {
+					seen[id] = true
+					cands = append(cands, id)
+				}
+			}
+		}
+		for _, c := range cands {
+			offs = append(offs, off)
+			repl = append(repl, c)
+		}
+	}
+	return
+}
+
+// sweepIDs loads every reference-spliced variant of a valid stream. Before each load it prints which one (a stack
+// overflow kills the process: the parent rebuilds the fatal input from the last SUB line).
+func sweepIDs(b *baseInputs, c *faultCase, i int) {
+	base := b.grb[len(c.Fault.Val)%len(b.grb)]
+	offs, repl := idSwaps(base, c.Fault.Val)
+	fmt.Printf("START %d\n", i)
+	var worstAlloc uint64
+	var worstMs int64
+	worstOutcome, worstAt, worstRepl := "ok", -1, ""
+	t00 := time.Now()
+	n := 0
+	for k := range offs {
+		d := append([]byte{}, base...)
+		copy(d[offs[k]:], repl[k])
+		fmt.Printf("SUB %d %d %s\n", i, offs[k], repl[k])
+		var m0, m1 runtime.MemStats
+		runtime.ReadMemStats(&m0)
+		t0 := time.Now()
+		outcome := runLoader("grb", d)
+		ms := time.Since(t0).Milliseconds()
+		runtime.ReadMemStats(&m1)
+		alloc := m1.TotalAlloc - m0.TotalAlloc
+		n++
+		if !strings.HasPrefix(worstOutcome, "panic") && (strings.HasPrefix(outcome, "panic") || alloc > worstAlloc) {
+			worstAlloc, worstMs, worstAt, worstRepl = alloc, ms, offs[k], repl[k]
+			if strings.HasPrefix(outcome, "panic") {
+				worstOutcome = outcome
+			}
+		}
+		if time.Since(t00) > 120*time.Second {
+			break
+		}
+	}
+	fmt.Printf("RESULT %s\n", mustJSON(J{"i": i, "outcome": worstOutcome, "len": len(base), "ms": worstMs, "alloc": worstAlloc, "fields": n, "at": worstAt, "repl": worstRepl}))
+}
+
 func mustJSON(v interface{}) string { b, _ := json.Marshal(v); return string(b) }
 
 // cmdLoadFaults is the parent: it drives children over all cases and writes the cases that broke a bound.
@@ -429,12 +566,17 @@ func cmdLoadFaults(args []string) {
 		cmd.Stdout, cmd.Stderr = &stdout, &stderr
 		runErr := cmd.Run()
 		started := -1
+		subOff, subID := -1, ""
 		finished := false
 		hung := false
 		for _, line := range strings.Split(stdout.String(), "\n") {
 			switch {
 			case strings.HasPrefix(line, "START "):
 				fmt.Sscanf(line, "START %d", &started)
+				subOff, subID = -1, ""
+			case strings.HasPrefix(line, "SUB "):
+				var si int
+				fmt.Sscanf(line, "SUB %d %d %s", &si, &subOff, &subID)
 			case strings.HasPrefix(line, "RESULT "):
 				var rec struct {
 					I       int    `json:"i"`
@@ -443,6 +585,8 @@ func cmdLoadFaults(args []string) {
 					Ms      int64  `json:"ms"`
 					Alloc   int64  `json:"alloc"`
 					Fields  int    `json:"fields"`
+					At      int    `json:"at"`
+					Repl    string `json:"repl"`
 				}
 				must(json.Unmarshal([]byte(line[7:]), &rec))
 				done++
@@ -455,6 +599,13 @@ func cmdLoadFaults(args []string) {
 				outcomes[key]++
 				maxAlloc, maxMs = max(maxAlloc, rec.Alloc), max(maxMs, rec.Ms)
 				asJ := J{"outcome": rec.Outcome, "len": rec.Len, "ms": rec.Ms, "alloc": rec.Alloc}
+				if cs[rec.I].Fault.Kind == "idswap" && cs[rec.I].Input == nil && rec.Repl != "" && rec.At >= 0 {
+					// the worst input of the sweep travels with a report
+					base := bases.grb[len(cs[rec.I].Fault.Val)%len(bases.grb)]
+					d := append([]byte{}, base...)
+					copy(d[rec.At:], rec.Repl)
+					cs[rec.I].Input = d
+				}
 				switch {
 				case strings.HasPrefix(rec.Outcome, "panic"):
 					report(rec.I, "the loader panicked", asJ)
@@ -483,6 +634,13 @@ func cmdLoadFaults(args []string) {
 			}
 			outcomes["process-died"]++
 			done++
+			if cs[started].Fault.Kind == "idswap" && cs[started].Input == nil && subOff >= 0 {
+				// the fatal input itself travels with the report
+				base := bases.grb[len(cs[started].Fault.Val)%len(bases.grb)]
+				d := append([]byte{}, base...)
+				copy(d[subOff:], subID)
+				cs[started].Input = d
+			}
 			report(started, "the process was aborted while loading (fatal error / kill): "+fmt.Sprint(runErr), J{"outcome": "process died", "stderr": tail})
 			next = started + 1
 		} else if runErr != nil && !hung {
